@@ -458,6 +458,14 @@ def execute(world, op, dry=False):
         k, x = g(cont), g(obj)
         tags = arg_tags(k, x)
         n = len(raw_children(k)[0 if lst == "sections" else 1]) if kind(k) in ("doc", "sec") else 0
+        if isinstance(idx, str):
+            # the element is addressed by its name
+            names_ = [c.__dict__.get("_name") for c in raw_children(k)[0 if lst == "sections" else 1]] if kind(k) in ("doc", "sec") else []
+            tags.append("key-is-name")
+            idx_key = idx
+            idx = names_.index(idx) if idx in names_ else n + 5
+        else:
+            idx_key = idx
         tags.append("index-in-range" if -n <= idx < n else "index-out-of-range")
         if kind(k) and kind(x) and ((lst == "sections") != (kind(x) == "sec")):
             tags.append("wrong-type")
@@ -473,13 +481,16 @@ def execute(world, op, dry=False):
                 tags.append("replaces-same-name")
 
         def fn():
-            getattr(k, lst)[idx] = x
+            getattr(k, lst)[idx_key] = x
     elif name == "reorder":
         _, obj, idx = op
+        idx = dec(idx)
         x = g(obj)
         par = x.__dict__.get("_parent")
         if par is None:
             tags = ["detached"]
+        elif not isinstance(idx, int) or isinstance(idx, bool):
+            tags = ["index-not-an-integer"]
         else:
             n = len(raw_children(par)[0 if kind(x) == "sec" else 1])
             tags = ["index-negative" if idx < 0 else ("index-in-range" if idx < n else "index-beyond-end")]
